@@ -6,7 +6,7 @@ H = lambda b: b.hex() if b else "-"
 
 DEFAULT_PROFILE = {
     "publish": 10, "ack": 10, "inbound": 8, "connect": 5, "fault": 3, "restart": 2, "call": 5, "response": 5,
-    "hostile": 1, "close": 0.5, "damage": 0, "bigbuf": 0.3, "wrap": 0,
+    "hostile": 1, "close": 0.5, "damage": 0, "bigbuf": 0.3, "wrap": 0, "blocked": 0,
 }
 
 
@@ -426,6 +426,94 @@ class Gen:
         self.link = "closed"
         self.subs, self.unsubs, self.ping, self.waiter = [], [], None, None
 
+    def blocked(self):
+        """operations placed while a goroutine is blocked at an I/O boundary: in the Dialer, awaiting
+        the CONNACK, inside conn.Write holding the write lock"""
+        r = self.r
+        if self.closed or self.waiter:
+            return
+        kind = r.choice(["dial", "hs", "hs", "gate", "gate", "gate"])
+        if kind in ("dial", "hs") and (self.link == "live" and not self.doomed):
+            if self.reader_out or r.random() < 0.5:
+                self.emit("brk")
+            if not self.reader_out:
+                self.emit("rs")
+            self.link, self.parked, self.reader_out, self.doomed = "pending", False, False, False
+            self.subs, self.unsubs, self.ping = [], [], None
+        if kind == "dial":
+            if self.reader_out:
+                return
+            if r.random() < 0.4:
+                self.ntag += 1
+                self.emit("call t%d %s" % (self.ntag, r.choice(["ping", "pub 0 74 68", "sub 1 61"])))
+            self.emit("dial block", "rs")
+            self.emit(r.choice(["close", "close", "disconnect"]))
+            if r.random() < 0.5:
+                self.emit(r.choice(["close", "disconnect"]))
+            self.emit("rs")
+            self.closed, self.link = True, "closed"
+        elif kind == "hs":
+            if self.reader_out:
+                return
+            ca = mq.connack(0, 0)
+            k = r.randrange(0, 4)
+            self.emit("dial ok %s" % H(ca[:k]), "feed block", "rs")
+            what = r.choice(["complete", "complete", "close", "disconnect", "brk", "garbage"])
+            if what == "complete":
+                self.emit("feed %s block" % H(ca[k:]))
+                self.link, self.parked, self.reader_out, self.doomed = "live", True, True, False
+                self.had_conn = True
+                self.owed = False
+            elif what == "garbage":
+                self.emit("feed %s block" % H(bytes([r.randrange(256) for _ in range(4 - k)])))
+                self.emit("brk")
+                self.link = "down"
+            elif what == "brk":
+                self.emit("brk")
+                self.link = "down"
+            else:
+                self.emit(what, "rs")
+                self.closed, self.link = True, "closed"
+        else:
+            if not (self.link == "live" and not self.doomed and self.reader_out):
+                return
+            self.ntag += 1
+            tag = "t%d" % self.ntag
+            call = r.choice(["ping", "pub 0 74 6869", "sub 1 612f23", "unsub 61"])
+            if call == "ping" and self.ping:
+                call = "pub 0 74 6869"
+            self.emit("wpol g", "call %s %s" % (tag, call))
+            what = r.choice(["ok", "ok", "fail", "close", "disconnect", "brk"])
+            if what == "ok":
+                self.emit("wgo ok")
+                if call.startswith("sub"):
+                    self.subs.append([tag, 0x6000 | (self.txn & 0x1fff), 1]); self.txn += 1
+                elif call.startswith("unsub"):
+                    self.unsubs.append([tag, 0x4000 | (self.txn & 0x1fff)]); self.txn += 1
+                elif call == "ping":
+                    self.ping = tag
+            elif what == "fail":
+                if call.startswith(("sub", "unsub")):
+                    self.txn += 1
+                self.emit("wgo " + r.choice(["t0", "e0", "c0", "t2"]))
+                self.link, self.parked, self.reader_out, self.doomed = "pending", False, False, False
+                self.subs, self.unsubs, self.ping = [], [], None
+                self.emit("rs")
+            elif what == "brk":
+                if call.startswith(("sub", "unsub")):
+                    self.txn += 1
+                self.emit("brk")
+                self.link, self.parked, self.reader_out, self.doomed = "pending", False, False, False
+                self.subs, self.unsubs, self.ping = [], [], None
+            else:
+                self.emit(what)
+                if what == "disconnect":
+                    if r.random() < 0.4:
+                        self.emit("close")
+                    self.emit("wgo " + r.choice(["ok", "ok", "t0", "c0"]))
+                self.emit("rs")
+                self.closed, self.link = True, "closed"
+
     def damage(self):
         """damage records of the store right before a restart (C16)"""
         r = self.r
@@ -452,7 +540,7 @@ class Gen:
         self.new_script()
         self.had_conn = False
         n = r.randrange(*self.length)
-        acts = ["publish", "ack", "inbound", "connect", "fault", "restart", "call", "response", "hostile", "close", "damage"]
+        acts = ["publish", "ack", "inbound", "connect", "fault", "restart", "call", "response", "hostile", "close", "damage", "blocked"]
         w = [self.p[a] for a in acts]
         for _ in range(n):
             a = r.choices(acts, weights=w, k=1)[0]
